@@ -560,6 +560,13 @@ def mk_ode(mp, d, vector_form=False):
         if vector_form:
             return (lambda x, y: [-2 * (x - c()) * y[0] * y[0]]), x0, [y0]
         return (lambda x, y: -2 * (x - c()) * y * y), x0, y0
+    if k == "dec":       # DECOUPLED vector system: component i solves the scalar problem parts[i] from the common x0
+        subs = []
+        for p in d["parts"]:
+            assert p["ode"] in ("lin", "riccati", "ricx"), p["ode"]
+            subs.append(mk_ode(mp, dict(p, x0=d["x0"]), False))
+        fs = [s[0] for s in subs]
+        return (lambda x, y: [f(x, y[i]) for i, f in enumerate(fs)]), x0, [s[2] for s in subs]
     raise ValueError(k)
 
 
